@@ -28,4 +28,127 @@ def Desc.noDict (d : Desc) : Bool := d.insts.toList.all (fun i => !i.isDict)
 /-- no TL2-only `bit` primitive instance (the TL1 writer of the model refuses it: `writePrim .bit _ = .error .shape`) -/
 def Desc.noBit (d : Desc) : Bool := d.insts.toList.all (fun i => !i.isBitPrim)
 
+/-! ### descriptor conditions needed by the round trip -/
+
+/-- a `.field i` reference made by field number `j` points to an earlier field -/
+def NatArg.refsLt (j : Nat) : NatArg → Bool
+  | .field i => decide (i < j)
+  | _ => true
+
+def Field.refsLt (j : Nat) (f : Field) : Bool :=
+  (match f.mask with | none => true | some (a, _) => a.refsLt j) && f.natArgs.all (NatArg.refsLt j)
+
+def fieldsRefsOk : Nat → List Field → Bool
+  | _, [] => true
+  | j, f :: fs => f.refsLt j && fieldsRefsOk (j + 1) fs
+
+/-- every variant is a struct whose 32-bit tag selects exactly this variant (tags pairwise distinct) -/
+def unionOk (d : Desc) (u : UnionD) : Bool :=
+  (List.range u.variants.length).all fun i =>
+    match u.variants[i]? with
+    | some (vi, _) =>
+      match d.get? vi with
+      | some (.struct s) => decide (s.tag < 4294967296) && (findVariant d s.tag u.variants 0 == some (i, vi))
+      | _ => false
+    | none => false
+
+def Inst.rtOk (d : Desc) : Inst → Bool
+  | .prim (.bool f t) => decide (f < 4294967296) && decide (t < 4294967296)
+  | .prim _ => true
+  | .struct s => decide (s.tag < 4294967296) && fieldsRefsOk 0 s.fields
+  | .union u => unionOk d u
+  | .array _ => true
+  | .dict _ => true
+
+/-- tags fit in 32 bits, masks / nat arguments refer to earlier fields, union tags select their variant -/
+def Desc.rtOk (d : Desc) : Bool := d.insts.toList.all (Inst.rtOk d)
+
+/-! ### values "as a reader produces them" -/
+
+def normalPrim : PrimK → Val → Bool
+  | .u32, .nat n | .i32, .nat n | .f32, .nat n => decide (n < 4294967296)
+  | .u64, .nat n | .i64, .nat n | .f64, .nat n => decide (n < 18446744073709551616)
+  | .byte, .nat n => decide (n < 256)
+  | .str, .str _ => true
+  | .bool f t, .bool b => !b || f != t
+  | _, _ => false
+
+abbrev Nm := Nat → Bool → List Nat → Val → Bool
+
+/-- a masked field holds a value iff its mask bit is set (in the value of the mask as stored in `all`) -/
+def normalFieldsWith (nm : Nm) (params : List Nat) (all : List (Option Val)) :
+    List Field → List (Option Val) → Bool
+  | [], [] => true
+  | f :: fs, v :: vs =>
+    match fieldPresent f all params, natArgVals all params f.natArgs with
+    | some true, some na =>
+      (match v with | some x => nm f.ty f.bare na x | none => false) && normalFieldsWith nm params all fs vs
+    | some false, some _ => v.isNone && normalFieldsWith nm params all fs vs
+    | _, _ => false
+  | _, _ => false
+
+/-- strictly sorted by key (every earlier key is smaller than every later one) -/
+def dictSorted (k : PrimK) : List Val → Bool
+  | [] => true
+  | e :: es =>
+    es.all (fun x => keyLt k (elemKey e) (elemKey x) && !keyLt k (elemKey x) (elemKey e)) && dictSorted k es
+
+/-- `Normal`: integers in range of their type, a masked field is `some` iff its mask bit is set,
+union index in range, dictionary elements strictly sorted by key. -/
+def normalTL1 (d : Desc) : Nat → Nm
+  | 0 => fun _ _ _ _ => false
+  | fuel + 1 => fun ty _bare params v =>
+    match d.get? ty, v with
+    | some (.prim k), v => normalPrim k v
+    | some (.struct s), .struct fs => normalFieldsWith (normalTL1 d fuel) params fs s.fields fs
+    | some (.union u), .union i x =>
+      match u.variants[i]?, natArgVals [] params u.elemNatArgs with
+      | some (vi, _), some na => normalTL1 d fuel vi true na x
+      | _, _ => false
+    | some (.array a), .arr es =>
+      match natArgVals [] params a.elem.natArgs with
+      | some na => es.all (normalTL1 d fuel a.elem.ty a.elem.bare na)
+      | none => false
+    | some (.dict a), .arr es =>
+      match natArgVals [] params a.elem.natArgs, dictKeyPrim d a with
+      | some na, some k => es.all (normalTL1 d fuel a.elem.ty a.elem.bare na) && dictSorted k es
+      | _, _ => false
+    | _, _ => false
+
+/-! ### minimal encoded size (for `CheckLengthSanity`) -/
+
+def minSizePrim : PrimK → Nat
+  | .u32 | .i32 | .f32 | .str | .bool _ _ => 4
+  | .u64 | .i64 | .f64 => 8
+  | .byte => 1
+  | .bit => 0
+
+def minFields (ms : Nat → Bool → Nat) : List Field → Nat
+  | [] => 0
+  | f :: fs => (if f.mask.isNone then ms f.ty f.bare else 0) + minFields ms fs
+
+def allStructs (d : Desc) (vs : List (Nat × String)) : Bool :=
+  vs.all (fun p => match d.get? p.1 with | some (.struct _) => true | _ => false)
+
+/-- a lower bound (fuel-bounded, hence possibly 0) of the number of bytes any successful `writeTL1` emits -/
+def minSize (d : Desc) : Nat → Nat → Bool → Nat
+  | 0 => fun _ _ => 0
+  | fuel + 1 => fun ty bare =>
+    match d.get? ty with
+    | none => 0
+    | some (.prim k) => minSizePrim k
+    | some (.struct s) => (if bare then 0 else 4) + minFields (minSize d fuel) s.fields
+    | some (.union u) => if allStructs d u.variants then 4 else 0
+    | some (.array a) =>
+      if a.isTuple then (if a.dynamic then 0 else a.count * minSize d fuel a.elem.ty a.elem.bare) else 4
+    | some (.dict _) => 4
+
+def Inst.elemMin4 (d : Desc) : Inst → Bool
+  | .array a => (a.isTuple && !a.dynamic) || decide (4 ≤ minSize d d.insts.size a.elem.ty a.elem.bare)
+  | .dict a => decide (4 ≤ minSize d d.insts.size a.elem.ty a.elem.bare)
+  | _ => true
+
+/-- every element type of a vector / dynamic tuple / dictionary encodes to at least 4 bytes -/
+def Desc.elemMin4 (d : Desc) : Bool := d.insts.toList.all (Inst.elemMin4 d)
+
 end TLVerif.Codec
